@@ -185,6 +185,14 @@ def systematic():
         qs.append(grp(a, {"t": "graph", "name": V("g"), "g": grp(bgp((V("x"), V("r2"), V("o2"))))}))
         qs.append(grp({"t": "graph", "name": I("g3"), "g": grp(a)}))
         qs.append(grp({"t": "graph", "name": I("nosuch"), "g": grp(a)}))
+    # IF evaluates only the branch it selects: the other one may be an unbound variable (the idiom IF(BOUND(?z), ?z, "none") after OPTIONAL)
+    for a in A_POOL[:3]:
+        for b in B_POOL[:3]:
+            opt = {"t": "optional", "g": grp(b)}
+            qs.append(grp(a, opt, {"t": "bind", "e": {"e": "if", "a": {"e": "bound", "v": "z"}, "b": ev("z"), "c": ec(S("none"))}, "v": "k"}))
+            qs.append(grp(a, opt, {"t": "bind", "e": {"e": "if", "a": {"e": "!", "a": {"e": "bound", "v": "z"}}, "b": ec(N(0)), "c": ev("z")}, "v": "k"}))
+            qs.append(grp(a, opt, {"t": "filter", "e": {"e": "if", "a": {"e": "bound", "v": "z"}, "b": {"e": "=", "a": ev("z"), "b": ec(N(1))}, "c": {"e": "bound", "v": "x"}}}))
+            qs.append(grp(a, opt, {"t": "bind", "e": {"e": "coalesce", "args": [ev("z"), ev("nope"), ev("y")]}, "v": "k"}))
     # patterns written after a MINUS / UNION / nested group / VALUES / FILTER of the same group: the position of a triple block matters
     # for MINUS (what is removed is decided before the later block joins) and must not matter for the others
     C_POOL = [bgp((V("z"), I("p"), V("w"))), bgp((V("x"), I("q"), V("z"))), bgp((V("z"), I("q"), V("x")))]
